@@ -85,6 +85,54 @@ def project_tuple(xs):
     return [project(x, names) for x in xs]
 
 
+def project_raw(x, names):
+    """image of a term as stored, WITHOUT following bindings: a bound variable inside shows
+    up as {"t":"bound"}.  Used for C15: what get_value returned must not rely on bindings."""
+    if isinstance(x, Variable):
+        if x._is_bound:
+            return {"t": "bound", "to": project_raw(x._value, names)}
+        return {"t": "v", "id": names.setdefault(id(x), len(names))}
+    if isinstance(x, Atom):
+        return {"t": "a", "n": x._name}
+    if isinstance(x, Functor):
+        return {"t": "c", "n": x._name, "a": [project_raw(a, names) for a in x._args]}
+    if isinstance(x, bool):
+        return {"t": "py", "v": repr(x)}
+    if isinstance(x, int):
+        return {"t": "i", "n": str(x)}
+    return {"t": "py", "v": repr(x)}
+
+
+def project_raw_tuple(xs):
+    names = {}
+    return [project_raw(x, names) for x in xs]
+
+
+def py_image(v):
+    """JSON image of a to_python result (same shape as Terms!ToPy)"""
+    if v is None:
+        return {"none": True}
+    if isinstance(v, bool):
+        return {"other": repr(v)}
+    if isinstance(v, int):
+        return {"i": str(v)}
+    if isinstance(v, str):
+        return {"s": v}
+    if isinstance(v, list):
+        return {"l": [py_image(x) for x in v]}
+    if isinstance(v, tuple) and len(v) == 2 and isinstance(v[0], str) and isinstance(v[1], list):
+        return {"f": v[0], "a": [py_image(x) for x in v[1]]}
+    return {"other": repr(v)}
+
+
+def is_ground_image(t):
+    if t["t"] == "v":
+        return False
+    if t["t"] == "c":
+        return all(is_ground_image(a) for a in t["a"])
+    return True
+
+
 def project_db(yp, keys):
     """contents of the watched keys, read back through the public facts-only API"""
     out = []
@@ -155,9 +203,11 @@ def make_native(yp, op, nstate):
 class Runner:
     """executes the API operations of one specification behaviour on real engines"""
 
-    def __init__(self, scn, mode="full"):
+    def __init__(self, scn, mode="full", opts=None):
         self.scn = scn
         self.mode = mode
+        self.opts = opts or {}
+        self.saved = {}    # run id -> [(values returned by get_value at an answer, their image at that time, to_python image)]
         self.yps = [YP() for _ in range(scn.get("engines", 1))]
         self.q = {}        # run id -> [generator] (a list so that the reference can be dropped)
         self.qv = {}       # run id -> query variables
@@ -190,7 +240,33 @@ class Runner:
             if e is not self.nstate.boom:
                 return {"k": "exception", "exc": "NativeBoom(other object)"}
             return {"k": "raised"}
-        return {"k": "answer", "ans": project_tuple(self.qv[r])}
+        o = {"k": "answer", "ans": project_tuple(self.qv[r])}
+        if self.opts.get("c15"):
+            # what the public accessors return at this answer
+            gv = [engine.get_value(v) for v in self.qv[r]]
+            o["gv"] = project_raw_tuple(gv)
+            try:
+                o["py"] = [py_image(engine.to_python(v)) for v in self.qv[r]]
+            except Exception as e:
+                o["py"] = [{"exception": type(e).__name__}]
+            self.saved.setdefault(r, []).append((gv, o["ans"], o["py"]))
+        return o
+
+    def check_saved(self, r):
+        """C15: values saved at the answers must still denote the same (ground) terms now"""
+        bad = []
+        for gv, ans, py in self.saved.pop(r, []):
+            for i, a in enumerate(ans):
+                if not is_ground_image(a):
+                    continue
+                now = project_raw(gv[i], {})
+                try:
+                    pynow = py_image(engine.to_python(gv[i]))
+                except Exception as e:
+                    pynow = {"exception": type(e).__name__}
+                if now != a or pynow != py[i]:
+                    bad.append({"at_answer": a, "now": now, "py_at_answer": py[i], "py_now": pynow})
+        return bad
 
     def close(self, r, how):
         cell = self.q[r]
@@ -276,15 +352,17 @@ class Runner:
             self.start_query(op)
             r = op["r"]
             answers = []
+            gvs, pys = [], []
             while True:
                 o = self.one_next(r)
                 if o["k"] == "answer":
                     answers.append(o["ans"])
+                    gvs.append(o.get("gv")); pys.append(o.get("py"))
                     if op["k"] and len(answers) == op["k"]:
                         self.close(r, "close")
-                        return {"k": "solve", "answers": answers, "end": "closed"}
+                        return {"k": "solve", "answers": answers, "end": "closed", "gvs": gvs, "pys": pys, "stale": self.check_saved(r)}
                 else:
-                    return {"k": "solve", "answers": answers, "end": o["k"], "exc": o.get("exc")}
+                    return {"k": "solve", "answers": answers, "end": o["k"], "exc": o.get("exc"), "gvs": gvs, "pys": pys, "stale": self.check_saved(r)}
         raise ValueError(k)
 
     def snapshot(self):
